@@ -205,9 +205,24 @@ impl<T: FftNum> FftPlannerSse<T> {
     pub fn plan_fft(&mut self, len: usize, direction: FftDirection) -> Arc<dyn Fft<T>> {
         // Step 1: Create a "recipe" for this FFT, which will tell us exactly which combination of algorithms to use
         let recipe = self.design_fft_for_len(len);
+        #[cfg(rustfft_verif)]
+        crate::verif_hooks::note_plan(|| format!("sse len={} {:?}", len, recipe));
 
         // Step 2: Use our recipe to construct a Fft trait object
         self.build_fft(&recipe, direction)
+    }
+
+    /// Verification hook: the recipe for `len` as text, without constructing anything
+    #[cfg(rustfft_verif)]
+    #[doc(hidden)]
+    pub fn verif_plan_only(&mut self, len: usize, _direction: FftDirection) -> String {
+        format!("{:?}", self.design_fft_for_len(len))
+    }
+    /// Verification hook: the (len, direction) keys of the instance cache, sorted
+    #[cfg(rustfft_verif)]
+    #[doc(hidden)]
+    pub fn verif_cache_keys(&self) -> Vec<(usize, FftDirection)> {
+        self.algorithm_cache.verif_keys()
     }
 
     /// Returns a `Fft` instance which uses SSE4.1 instructions to compute forward FFTs of size `len`
